@@ -14,3 +14,4 @@ import SamVerif.Props.C05
 import SamVerif.Props.C13
 import SamVerif.Props.C11
 import SamVerif.Props.C08
+import SamVerif.Props.C20
